@@ -567,6 +567,8 @@ class Expander:
 
         # 1. drop attributes inside the item text (outer ones are already excluded by Item.start)
         for m in ATTR_RE.finditer(ed.text):
+            if "external-body" in opts and body_rel is not None and m.start() >= body_rel:
+                continue
             ed.replace(m.start(), m.end() - m.start(), "", ("tmpl", self.unit, lineno))
             self.records["dropped_attrs"] += 1
         # 2. ret=name : `-> T` => `-> (name: T)`
@@ -587,8 +589,14 @@ class Expander:
         if "exec-const" in opts:
             self._exec_const(item, ed, directives, lineno, relpath, name)
         if "external-body" in opts:
+            # signature + contract only: the body is verified (against the same contract file) in another unit or back end
+            if item.body_open is None:
+                raise ExtractError(f"{self.unit}:{lineno}: external-body on item without body")
             ed.insert(0, "#[verifier::external_body] ", ("tmpl", self.unit, lineno))
-            self.records["abstractions"].append(f"{relpath}:{name}: taken as external_body (body not verified)")
+            b_s = src.toks[item.body_open].s - ed.base
+            b_e = src.toks[src.match[item.body_open]].e - ed.base
+            ed.replace(b_s, b_e - b_s, "{ unimplemented!() }", ("tmpl", self.unit, lineno))
+            self.records["abstractions"].append(f"{relpath}:{name}: signature and contract only (assumed here; body verified elsewhere or trusted)")
         loops = self._loops(item) if is_fn and item.body_open is not None else []
         for d, d_line, payload in directives:
             text = "\n".join(payload)
@@ -605,8 +613,12 @@ class Expander:
                 ed.insert(body_rel, "\n" + text + "\n", origin)
             elif d == "//@contract":
                 if body_rel is None:
-                    raise ExtractError(f"{self.unit}:{d_line}: contract on item without body")
-                ed.insert(body_rel, "\n" + text + "\n", origin)
+                    if is_fn and src.is_p(item.last, ";"):
+                        ed.insert(src.toks[item.last].s - ed.base, "\n" + text + "\n", origin)  # bodiless trait fn
+                    else:
+                        raise ExtractError(f"{self.unit}:{d_line}: contract on item without body")
+                else:
+                    ed.insert(body_rel, "\n" + text + "\n", origin)
             elif d.startswith("//@loop "):
                 n = int(d.split()[1])
                 if n < 1 or n > len(loops):
@@ -812,6 +824,9 @@ def enumerate_obligations(gen_text):
                     back = src.text[max(0, src.toks[k].s - 80):src.toks[k].s]
                     seg = back.split("\n")[-1] if "\n" in back else back
                     mode = "spec" if re.search(r"\bspec\b", seg) else ("proof" if re.search(r"\bproof\b", seg) else "exec")
+                    back2 = src.text[max(0, src.toks[k].s - 200):src.toks[k].s]
+                    if "external_body" in back2.split("}")[-1].split(";")[-1]:
+                        mode = "external"
                     # params
                     j = n
                     while j < hi and not src.is_p(j, "("):
@@ -858,6 +873,8 @@ def enumerate_obligations(gen_text):
                                 if wq == "assert":
                                     asserts += 1
                             q += 1
+                    if body is None and mode == "exec":
+                        mode = "declared"
                     res[name] = {"mode": mode, "requires": counts["requires"], "ensures": counts["ensures"],
                                  "invariants": inv, "asserts": asserts,
                                  "line": src.line_of(src.toks[k].s), "end": src.line_of(src.toks[endtok].e - 1)}
